@@ -358,3 +358,50 @@ fn c02_k_lunar_order() {
 }
 // (LunarHour::is_before / is_after clone and drop lunar days inside the function under test - the drop glue CBMC cannot
 //  finish, see DESIGN 8.2 - so their order stays an execution check: c02_lunar_side.)
+
+// ---- C02 / C11: LunarDay::next(n) goes through the civil calendar: the day's civil date (c02_k_lunar_to_solar) stepped by
+// exactly n (c01_k5_next) and converted back (verus c02_lunar_conv); next(0) is the day itself.
+static mut LN_N: isize = -7941;
+static mut LN_CALLS: (usize, usize, usize) = (7942, 7943, 7944);
+static mut LN_BACK: (isize, usize, usize) = (-7945, 7946, 7947);
+fn ln_get_solar_day(_d: &LunarDay) -> SolarDay { unsafe { LN_CALLS.0 += 1; } crate::tyme::solar::verif_k::mk_day(2000, 1, 1) }
+fn ln_day_next(d: &SolarDay, n: isize) -> SolarDay { unsafe { LN_CALLS.1 += 1; LN_N = n; if (d.get_year(), d.get_month(), d.get_day()) != (2000, 1, 1) { LN_CALLS.1 += 10; } } crate::tyme::solar::verif_k::mk_day(4321, 7, 9) }
+fn ln_get_lunar_day(d: &SolarDay) -> LunarDay { unsafe { LN_CALLS.2 += 1; LN_BACK = (d.get_year(), d.get_month(), d.get_day()); } mk_lunar_day(4321, 6, 5) }
+#[kani::proof]
+#[kani::stub(alloc::fmt::format, stub_format)]
+#[kani::stub(LunarDay::get_solar_day, ln_get_solar_day)]
+#[kani::stub(<SolarDay as Tyme>::next, ln_day_next)]
+#[kani::stub(SolarDay::get_lunar_day, ln_get_lunar_day)]
+fn c02_k_lunar_day_next() {
+  let d = any_lunar_day();
+  let n: isize = kani::any();
+  unsafe { LN_CALLS = (0, 0, 0); }
+  let r = d.next(n);
+  if n == 0 {
+    assert!(r == d && unsafe { LN_CALLS } == (0, 0, 0), "next(0) is the day itself");
+  } else {
+    assert!(unsafe { LN_CALLS } == (1, 1, 1) && unsafe { LN_N } == n && unsafe { LN_BACK } == (4321, 7, 9), "civil date of the day, stepped by exactly n, converted back");
+    assert!(r.get_year() == 4321 && r.get_month() == 6 && r.get_day() == 5, "the converted day is returned");
+  }
+  core::mem::forget(r); core::mem::forget(d);
+  kani::cover!(n == -1, "lunar_day_next reachable");
+}
+
+// C14: lunar week objects are accepted under the same rule (month lookup and week count: arbitrary answers of stubs)
+static mut LW_WC: usize = 7806;
+fn lw_week_count(_m: &LunarMonth, _start: usize) -> usize { unsafe { LW_WC } }
+#[kani::proof]
+#[kani::unwind(9)]
+#[kani::stub(alloc::fmt::format, stub_format)]
+#[kani::stub(LunarMonth::from_ym, stub_month_from_ym)]
+#[kani::stub(LunarMonth::get_week_count, lw_week_count)]
+fn c14_k_lunar_week_accept() {
+  let y: isize = kani::any(); let m: isize = kani::any(); let i: usize = kani::any(); let start: usize = kani::any(); let wc: usize = kani::any();
+  kani::assume(y >= 0 && y <= 9999 && m != 0 && m >= -12 && m <= 12 && wc >= 5 && wc <= 6);
+  unsafe { LW_WC = wc; }
+  let r = LunarWeek::new(y, m, i, start);
+  assert!(r.is_ok() == (i <= 5 && start <= 6 && i < wc), "accepted exactly when index <= 5, start <= 6 and index < week count");
+  if let Ok(ref w) = r { assert!(w.get_index() == i && w.get_year() == y && w.get_month() == m && w.start.get_index() == start, "components stored as given"); }
+  core::mem::forget(r);
+  kani::cover!(i == 5 && wc == 6 && m == -3, "lunar_week_accept reachable");
+}
